@@ -327,3 +327,44 @@ def vary_make(rng, earlier, fresh):
     else:
         new = dict(earlier, id=fresh['id'])
     return new
+
+
+def vary_use(rng, earlier, fresh, makes):
+    """A serialising operation related to an earlier one (same symbol and kind with other colours, same options
+    on another symbol, the same call again, another kind with the shared options) -- state leaking between
+    serialiser calls shows on related calls, not on unrelated ones."""
+    if earlier['op'] != 'save':
+        return dict(earlier, name=fresh['name']) if earlier['op'] in ('uri', 'terminal', 'miter') else fresh
+    how = rng.choice(('repeat', 'recolour', 'recolour', 'other_symbol', 'other_kind', 'rescale'))
+    kind = earlier['kind']
+    skw = core.dec(earlier['skw'])
+    new = dict(earlier, name=fresh['name'])
+    if how == 'recolour':
+        fresh_kw = opts.gen_ser_opts(rng, kind, cli=False)
+        keep = {k: v for k, v in skw.items() if k in ('scale', 'border')}
+        colours = {k: v for k, v in fresh_kw.items() if k in ('dark', 'light') or k in opts.MODULE_COLOR_KEYS}
+        if kind in opts.COLORFUL_KINDS and not any(k in opts.MODULE_COLOR_KEYS for k in colours):
+            colours[rng.choice(opts.MODULE_COLOR_KEYS)] = rng.choice(opts.RGB_COLORS)
+        new['skw'] = core.enc(dict(keep, **colours))
+    elif how == 'other_symbol':
+        m = rng.choice(makes)
+        new['sym'] = m['id']
+        new['symspec'] = {'fn': m['fn'], 'content': m['content'], 'kw': m['kw']}
+        if m['fn'] == 'make_sequence' and new['route'] == 'stream' and kind == 'pdf':
+            new['route'] = 'path'
+    elif how == 'other_kind':
+        k2 = rng.choice([k for k in opts.KINDS if k != kind])
+        base = opts.gen_ser_opts(rng, k2, cli=False)
+        for k in ('scale', 'border'):
+            if k in skw and (k != 'scale' or (k2 not in ('txt', 'ans') and (k2 in opts.VECTOR_KINDS or isinstance(skw[k], int)))):
+                base[k] = skw[k]
+        new.update(kind=k2, skw=core.enc(base))
+        new.pop('ext', None)
+        new.pop('kind_spelling', None)
+        if new['route'] == 'svgz':
+            new['route'] = 'path'
+    elif how == 'rescale' and kind not in ('txt', 'ans'):
+        skw2 = dict(skw)
+        skw2['scale'] = rng.choice((1, 2, 3, 5))
+        new['skw'] = core.enc(skw2)
+    return new
